@@ -14,6 +14,8 @@ import HvProps.C05
 import HvProps.C06
 import HvProps.C20
 import HvProofs.Hdd
+import HvProofs.Envelope
+import HvProofs.Vmx
 namespace Hv.C11
 open Hv
 
@@ -60,6 +62,57 @@ theorem chain_walk_terminates (shots : List (Nat × Nat)) (null guid : Nat) :
 
 /-- vmtar member iteration: any byte string (negative sizes are refused since fix bc40280) -/
 theorem vmtar_listing_terminates (f : File) : Vmtar.list f true ≠ .nonTermination := C20.vmtar_listing_terminates f
+
+/-- **envelope_attr_loop_terminates**: the `while True` loop of `_read_envelope_attributes` on ARBITRARY bytes — any type
+    codes, names without NUL, truncated values, length fields up to 2^64 − 1 — returns or raises: every iteration that
+    yields an attribute consumes at least three bytes (type, flag, the name's NUL), so the fuel `length + 1` the reader is
+    called with is never exhausted; hence `Envelope.__init__` (`openEnv`) returns or raises on every file. -/
+theorem envelope_attr_loop_terminates (b : Bytes) :
+    Envelope.readList (b.length + 1) b ≠ .error .nonTermination ∧ Envelope.readAttrs b ≠ .error .nonTermination :=
+  ⟨Envelope.readList_terminates _ b (by omega), Envelope.readAttrs_terminates b⟩
+
+/-- one iteration's progress (the reason the fuel suffices), and the file-level corollary -/
+theorem envelope_attr_step_progress (b : Bytes) (a : Envelope.Attr) (rest : Bytes) (h : Envelope.readOne b = .attr a rest) :
+    rest.length + 3 ≤ b.length := Envelope.readOne_progress h
+theorem envelope_open_terminates (file : Bytes) : Envelope.openEnv file ≠ .error .nonTermination :=
+  Envelope.openEnv_terminates file
+
+/-- the strict UTF-8 check inside the loop is fuel-recursive too (it answers `false` when the fuel runs out): with any fuel
+    above the length it computes the same answer, so the `length + 1` it is called with never truncates a decision -/
+theorem envelope_utf8_fuel_irrelevant (b : Bytes) (fuel : Nat) (h : b.length < fuel) :
+    Envelope.utf8ValidF fuel b = Envelope.utf8Valid b :=
+  Envelope.utf8ValidF_fuel fuel (b.length + 1) b h (by omega)
+
+/-- **keysafe_parse_terminates**: the key-safe parser on ARBITRARY text — `_split_list`'s nesting loop is structurally
+    recursive in the model (one step per character, any parenthesis depth, unbalanced or not), and the recursive
+    `_parse_key_locator` (lists of lists of pairs …, to any depth the text can encode) is called with the fuel
+    `length + 1`: every level consumes at least the opening parenthesis, each member is strictly shorter than the list
+    text it came from, so the fuel is never exhausted. The external functions (`base64.b64decode`, `int`) are parameters;
+    the only thing assumed about them is that they do not themselves return the model's out-of-fuel outcome. -/
+theorem keysafe_parse_terminates (c : Vmx.Crypto) (hc : c.NoNT) (text : Bytes) :
+    Vmx.fromText c text ≠ .error .nonTermination ∧
+    (∀ s, Vmx.parseLocator c (s.length + 1) s ≠ .error .nonTermination) :=
+  ⟨Vmx.fromText_terminates c hc text, fun s => Vmx.parseLocator_terminates c hc _ s (by omega)⟩
+
+/-- the measure: every member of a split list is strictly shorter than the list text -/
+theorem keysafe_split_members_shorter (v : Bytes) (ms : List Bytes) (h : Vmx.splitList v = .ok ms) :
+    ∀ m ∈ ms, m.length < v.length := Vmx.splitList_member_length h
+
+/-! non-vacuity: deeply nested / truncated / unbalanced key-safe texts and attribute areas are answered, not looped on -/
+def c11Crypto : Vmx.Crypto :=
+  { pbkdf2 := fun _ _ _ _ _ => .error .value, hmac := fun _ _ _ => .error .value, cbcDecrypt := fun _ _ _ => .error .value,
+    b64decode := fun b => .ok b, parseInt := fun _ => .ok 1, utf8ok := fun _ => .ok true, parseDict := fun _ => .ok [] }
+theorem c11Crypto_noNT : c11Crypto.NoNT := by
+  unfold Vmx.Crypto.NoNT; constructor <;> (intro x h; cases h)
+-- "vmware:key/list/(list/(list/(list/(pair/(" — five levels, cut in the middle
+example : (Vmx.fromText c11Crypto (Vmx.asc "vmware:key/list/(list/(list/(list/(pair/((((")).toOption.isNone = true := by
+  decide +kernel
+-- a well-formed two-level nesting is parsed (two members, the second an empty-ish list is refused deeper down)
+example : (match Vmx.fromText c11Crypto (Vmx.asc "vmware:key/list/(list/(list/(x)))") with
+           | .error .nonTermination => false | _ => true) = true := by decide +kernel
+-- an attribute area whose bytes-typed value announces 2^63 − 1 bytes: short read, then the terminator
+example : (Envelope.readAttrs ([12, 0, 0, 0, 110, 0] ++ leBytes 8 (2 ^ 63 - 1) ++ [1, 2, 3])).toOption.isSome = true := by
+  decide +kernel
 
 /-! non-vacuity: shapes of cycles that are refused rather than followed -/
 example : Hdd.snapshotChain [(1, 2), (2, 2)] 0 1 = .error .value := by decide                          -- A→B→B
